@@ -135,7 +135,9 @@ def gen(rng):
         'world': {'mounts': L['mounts'], 'steps': steps},
         'procs': [{'argv': ['trash-put'] + opts + ['--'] + args, 'env': env, 'cwd': rng.choice(['/', home]), 'uid': uid}],
         'dirsalt': rng.randrange(1 << 30),
-        'clock': {'start': start, 'tick_us': rng.choice([137, 400000, 0]), 'utcoffset_s': rng.choice([0, 3600, -18000, 19800, 34200, 50400, -43200])},
+        'clock': {'start': start, 'tick_us': rng.choice([137, 400000, 0]), 'utcoffset_s': rng.choice([0, 3600, -18000, 19800, 34200, 50400, -43200]),
+                  # does the zone have DST rules (time.daylight) and is DST in effect now (tm_isdst)? utcoffset_s is the offset in effect
+                  'dst': rng.choice([None, None, {'has': True, 'on': True}, {'has': True, 'on': False}])},
     }
 
 
